@@ -32,6 +32,7 @@ struct Shared
     std::uint64_t invocations = 0;
     int cls = 0;
     std::uint64_t salt = 0;
+    std::uint64_t zero_from = 0, zero_to = 0;   // class 6: the integrand vanishes for invocations in (zero_from, zero_to]
 };
 
 Shared*& shared()
@@ -40,7 +41,7 @@ Shared*& shared()
     return s;
 }
 
-static char const* cls_names[] = {"ordinary", "identically-zero", "constant", "zero-mean", "non-finite-everywhere", "non-finite-sometimes"};
+static char const* cls_names[] = {"ordinary", "identically-zero", "constant", "zero-mean", "non-finite-everywhere", "non-finite-sometimes", "zero-throughout-one-iteration"};
 
 template <typename P> T f_any(P const& p)
 {
@@ -54,6 +55,7 @@ template <typename P> T f_any(P const& p)
     case 3: return (s.invocations % 2) ? T(1) : T(-1);
     case 4: return std::numeric_limits<T>::quiet_NaN();
     case 5: return (s.invocations % 5 == 0) ? std::numeric_limits<T>::infinity() : x * x + T(0.1);
+    case 6: return (s.invocations > s.zero_from && s.invocations <= s.zero_to) ? T() : T(3) * x * x + T(0.2);
     default: return T(3) * x * x + T(0.2);
     }
 }
@@ -73,6 +75,19 @@ template <typename R> void reference(std::vector<R> const& results, LD& rel, boo
     if (!any) { rel = std::numeric_limits<LD>::quiet_NaN(); return; }
     LD E = se / sw, S = std::sqrt(1 / sw);
     rel = S / std::fabs(E);
+    // the combined result goes through (value, error) -> (sum, sum of squares) -> error(): if that conversion is
+    // ill conditioned in T (error tiny compared with the value, e.g. a constant integrand) the library's relative
+    // error is rounding noise and the decision cannot be judged
+    LD N = 0;
+    for (auto const& r : results) N += r.calls();
+    LD kappa = 1 + E * E / ((N - 1) * S * S);
+    if (kappa * eps<T>() * 64 > 0.05L) degenerate = true;
+    for (auto const& r : results)
+    {
+        if (r.non_zero_calls() == 0) continue;
+        LD k1 = 1 + (LD)r.value() * r.value() / ((r.calls() - 1) * (LD)r.variance());
+        if (k1 * eps<T>() * 64 > 0.05L) degenerate = true;
+    }
 }
 
 template <typename Chk> void record(Chk const& c, std::vector<CbRec>& log, bool decision)
@@ -347,6 +362,13 @@ void run_case(Rng& rng, std::uint64_t idx)
     int kind = (idx / 3) % 7;   // 0 user, 1 builtin target 0, 2 builtin positive target, 3 resumed, 4 mpi target 0 / user, 5 mpi positive target
     Shared sh;
     sh.cls = kind == 6 ? 0 : (kind == 2 || kind == 5) ? (rng.below(3) == 0 ? (int)rng.range(1, 5) : 0) : rng.below(6);
+    if ((kind == 1 || kind == 2 || kind == 6) && n >= 2 && rng.below(4) == 0)
+    {
+        sh.cls = 6;
+        std::size_t z = rng.range(1, n - 1);      // not the first iteration
+        for (std::size_t i = 0; i < z; ++i) sh.zero_from += calls[i];
+        sh.zero_to = sh.zero_from + calls[z];
+    }
     shared() = &sh;
     static char const* names[] = {"plain", "vegas", "multi_channel"};
     static char const* kinds[] = {"user-callback", "builtin-target-0", "builtin-positive-target", "resumed", "mpi-target0-or-user", "mpi-positive-target", "builtin-target-exactly-reached"};
